@@ -165,7 +165,10 @@ Json generate(const std::string& tier, uint64_t seed, uint64_t index) {
   sc.set("consumer", script);
   sc.set("options_rv", rng.chance(0.1) ? (long)(1 + rng.below(5)) : 0L);
   sc.set("c_party", rng.chance(0.2));
-  sc.set("easy_party", !sc["c_party"].as_bool() && rng.chance(0.15));   // the library's own handler (NLSolver::ReadSolution for an NLModel of the declared size)      // the consumer is a C callback table behind the library's C wrapper (api/c)
+  sc.set("easy_party", !sc["c_party"].as_bool() && rng.chance(0.15));
+  // two more consumer parties from the C side of the library: its default callback table, and NLW2_ReadSolution_C on a solver
+  // object with a history (it has read another solution, with suffixes of its own, before)
+  { int q = (int)rng.below(100); if (!sc["c_party"].as_bool() && !sc["easy_party"].as_bool()) { if (q < 8) sc.set("c_default_party", true); else if (q < 18) sc.set("easy_c_party", true); } }   // the library's own handler (NLSolver::ReadSolution for an NLModel of the declared size)      // the consumer is a C callback table behind the library's C wrapper (api/c)
   return sc;
 }
 
@@ -202,6 +205,8 @@ SolReadConfig config_of(const Json& sc) {
   c.options_rv = (int)sc["options_rv"].as_int(0);
   c.c_party = sc["c_party"].as_bool();
   c.easy_party = sc["easy_party"].as_bool();
+  c.c_default_party = sc["c_default_party"].as_bool();
+  c.easy_c_party = sc["easy_c_party"].as_bool();
   return c;
 }
 
@@ -306,6 +311,16 @@ sim::RunResult run(const Json& sc) {
           break;
         }
       }
+    // the C flavour of the easy reader on a solver object with a history: every suffix it returns is one of this file
+    if (sc["easy_c_party"].as_bool() && res.rc == 0) {
+      bump(st, "easy_c_party_read_ok");
+      for (auto& es : res.easy_sufs) {
+        bool in_file = bin ? bytes.find(es.name + std::string(1, '\0')) != std::string::npos
+                           : bytes.find("\n" + es.name + "\n") != std::string::npos || bytes.find("\n" + es.name + "\r\n") != std::string::npos;
+        if (!in_file) { v.set("FOREIGN_SUFFIX_RETURNED", bin ? "binary" : "text", "NLW2_ReadSolution_C returned a suffix named '" + es.name.substr(0, 40) + "' (kind " + std::to_string(es.kind) + ", " + std::to_string(es.values.size()) + " values): the file holds no suffix of that name (the solver object read another solution before)"); break; }
+      }
+    }
+    if (sc["c_default_party"].as_bool()) bump(st, "c_default_party_runs");
     // a consumer that rejected a completely read vector gets its code back, and its own words in the message
     if (!res.consumer_rejected.empty()) {
       bump(st, "consumer_rejected_complete_vector");
@@ -327,7 +342,7 @@ sim::RunResult run(const Json& sc) {
           break;
         }
       }
-    } else if (!rfault && !sc["easy_party"].as_bool()) {
+    } else if (!rfault && !sc["easy_party"].as_bool() && !sc["easy_c_party"].as_bool()) {
       // binary, any file (valid, damaged, hostile header fields): the stated lengths count the terminating NUL, so a delivered
       // name (table) of the stated length stands in the file followed by a NUL byte
       for (auto& vr : res.vecs) {
